@@ -367,6 +367,20 @@ func init() {
 		ref := fc.newRef(st, "err")
 		return IfaceV{fc.eng.typeTagName("freshError"), ref}
 	}
+	// the clock: time.Now() is an opaque value; Unix() returns an unconstrained int64 that is
+	// remembered in the ghost variable "now" so that contracts can refer to it
+	natives["time.Now"] = func(br *bodyRun, st *State, fn *ssa.Function, av []ssa.Value, args []Val, rt types.Type, x ssa.CallInstruction) Val {
+		return br.fc.freshTyped(st, rt, "timenow")
+	}
+	natives["(time.Time).Unix"] = func(br *bodyRun, st *State, fn *ssa.Function, av []ssa.Value, args []Val, rt types.Type, x ssa.CallInstruction) Val {
+		fc := br.fc
+		fc.note("time.Now().Unix(): an unconstrained clock value (ghost variable now)")
+		v := fc.smt.declare("now", bvsort(64))
+		fc.keySort["ghost|now"] = bvsort(64)
+		fc.touched["ghost|now"] = true
+		st.heap["ghost|now"] = v
+		return Scalar{v}
+	}
 	natives["fmt.Errorf"] = newErr
 	natives["errors.New"] = newErr
 	natives["github.com/pkg/errors.Errorf"] = newErr
